@@ -74,9 +74,12 @@ FINGERPRINTS = {
     # first shape: the recording transaction re-reads the input records and sends an overtaken check back to
     # PENDING with its hash (fix 3ce20a7, D37); second: the shape before it
     "stepup/core/executor.py:Executor.try_skip_job": ("cd8f2ddadd897a04", "decd09f009978afd"),
-    # first shape: an unchanged validation leaves the step PENDING *and deferred* (fix d760e3e, D36);
-    # second: PENDING without the flag (the same job is dispatched again at once)
-    "stepup/core/executor.py:Executor.validate_dynamic_job": ("c64f8ccfa4c864d5", "5c3f511f7670d82c"),
+    # first shape: an unchanged validation leaves the step PENDING, deferred iff one of its dynamic inputs is
+    # still unusable, decided in the recording transaction (fix 84081f2, D39); second: PENDING *and deferred*
+    # unconditionally (fix d760e3e, D36); third: PENDING without the flag (the same job is dispatched again at once).
+    # The difference is GENERATED (gen_validate_flag_mode) and the older shapes break
+    # C04_model_matches_generated_facts by name.
+    "stepup/core/executor.py:Executor.validate_dynamic_job": ("66c3a31377b03d64", "c64f8ccfa4c864d5", "5c3f511f7670d82c"),
     "stepup/core/executor.py:Executor._reset_step_to_pending": ("d191ea381b11a367",),
     "stepup/core/workflow.py:Workflow.mark_step_pending": ("a8064bde6c65d522",),
     "stepup/core/workflow.py:Workflow.mark_consuming_steps_pending": ("ea8f95325e91cd94",),
@@ -322,7 +325,8 @@ def _env_rescan_facts(tree):
 
 def _validate_unchanged_deferred(tree):
     """validate_dynamic_job, inputs unchanged: the one transaction after the digest comparison sets the step
-    PENDING; is the deferred flag passed?"""
+    PENDING; which deferred flag is passed?  0 = none / False, 1 = True, 2 = step.has_unusable_dynamic_input()
+    evaluated in that transaction (84081f2)."""
     fn = find_function(tree, "validate_dynamic_job", "Executor")
     calls = [n for n in ast.walk(fn) if isinstance(n, ast.Call) and isinstance(n.func, ast.Attribute)
              and n.func.attr == "set_state"]
@@ -332,11 +336,18 @@ def _validate_unchanged_deferred(tree):
     if call.keywords or len(call.args) > 2:
         raise TranslatorError("validate_dynamic_job: set_state call not recognised")
     if len(call.args) == 1:
-        return False
+        return 0
     flag = ast.unparse(call.args[1])
-    if flag not in ("True", "False"):
-        raise TranslatorError(f"validate_dynamic_job: deferred flag is not a literal: {flag}")
-    return flag == "True"
+    modes = {"False": 0, "True": 1, "step.has_unusable_dynamic_input()": 2}
+    if flag not in modes:
+        raise TranslatorError(f"validate_dynamic_job: deferred flag not recognised: {flag}")
+    if modes[flag] == 2:
+        # the flag must be computed inside the transaction that records the outcome
+        withs = [n for n in ast.walk(fn) if isinstance(n, ast.AsyncWith)
+                 and any(c is call for c in ast.walk(n))]
+        if not withs or not any("self.db" in ast.unparse(i.context_expr) for w in withs for i in w.items):
+            raise TranslatorError("validate_dynamic_job: the deferred flag is not decided inside the transaction")
+    return modes[flag]
 
 
 ENV_SOURCE_CODES = {"self.base_env.get(name)": 1, "os.getenv(name)": 2, "os.environ.get(name)": 2}
@@ -516,8 +527,9 @@ def generate(check=True):
         f"Definition gen_env_rescan_stores_seen_value : bool := {'true' if env_stores else 'false'}.",
         "",
         "(* Executor.validate_dynamic_job, inputs unchanged: the step goes back to PENDING with this",
-        "   deferred flag (true since fix d760e3e) *)",
-        f"Definition gen_validate_unchanged_deferred : bool := {'true' if validate_deferred else 'false'}.",
+        "   deferred flag: 0 = not deferred, 1 = deferred, 2 = deferred iff Step.has_unusable_dynamic_input()",
+        "   holds in the recording transaction (84081f2) *)",
+        f"Definition gen_validate_flag_mode : N := {int(validate_deferred)}.",
         "",
         "(* Which mapping provides the values of a step's tracked environment variables: 1 = Executor.base_env",
         "   (os.environ overlaid with the director's infra_env), 2 = os.environ.",
